@@ -225,7 +225,7 @@ def py_oracle_C14(case):
     Aging steps are visible as a drop of the `size` reported after each increment."""
     cfg = dict(f.split("=", 1) for f in op_of(case[0]).split()[1:] if "=" in f)
     if cfg.get("kind") != "sketch":
-        return True
+        return None                   # cache traces: judged by the driver's oracle of the same name
     lb, prev = {}, 0
     for l in case[1:]:
         op, _, ob = l.partition(" -> ")
@@ -613,7 +613,12 @@ def worker(args):
     oc = split_cases(ops)
     verdicts = run_oracle(oracle_id, impl) if (oracle_id and oracle_id not in PY_ORACLES) else {}
     if oracle_id in PY_ORACLES:
-        verdicts = {i: (("ok" if PY_ORACLES[oracle_id](c) else "FAIL"), "") for i, c in enumerate(ic)}
+        pv = {i: PY_ORACLES[oracle_id](c) for i, c in enumerate(ic)}
+        if any(v is None for v in pv.values()):
+            verdicts = run_oracle(oracle_id, impl)
+        for i, v in pv.items():
+            if v is not None:
+                verdicts[i] = (("ok" if v else "FAIL"), "")
     hist = {}
     for idx, c in enumerate(ic):
         for l in c[1:]:
@@ -659,11 +664,11 @@ def judge_case(prop, ops_lines, mode, oracle_id):
     ic = split_cases(impl)
     mc = split_cases(model or "")
     ok = True
-    if oracle_id in PY_ORACLES:
-        ok = all(PY_ORACLES[oracle_id](c) for c in ic)
-    elif oracle_id:
+    pv = [PY_ORACLES[oracle_id](c) for c in ic] if oracle_id in PY_ORACLES else [None] * len(ic)
+    if oracle_id and any(x is None for x in pv):
         v = run_oracle(oracle_id, impl)
-        ok = all(x[0] in ("ok", "SKIP") for x in v.values()) and len(v) == len(ic)
+        ok = len(v) == len(ic) and all(v[i][0] in ("ok", "SKIP") for i in range(len(ic)) if pv[i] is None)
+    ok = ok and all(x for x in pv if x is not None)
     if ierr:
         ok = False
     agrees = len(ic) == len(mc) and all(first_diff(a, b, mode) is None for a, b in zip(ic, mc))
